@@ -1,11 +1,11 @@
 #!/usr/bin/env python3
-"""tools/confirm_seed2.py Cxx mK : confirm a second-round seeded change (made against the hooked tree) in its
+"""tools/confirm_seed2.py Cxx mK [source dir, default /tmp/seed2] : confirm a second-round seeded change (made against the hooked tree) in its
 scratch worktree /tmp/wt-Cxx from /tmp/seed2/Cxx: compiles, unit tests pass, demo fails with / passes without;
 then store it under /verif/seeded/Cxx-mK (patch.diff applies to /repo as it is)."""
 import json, os, shutil, subprocess, sys
 from pathlib import Path
 pid, mk = sys.argv[1], sys.argv[2]
-src = Path(f"/tmp/seed2/{pid}")
+src = Path(sys.argv[3] if len(sys.argv) > 3 else "/tmp/seed2") / pid
 wt = Path(f"/tmp/wt-{pid}")
 env = dict(os.environ, GOFLAGS="-mod=mod", GOPROXY="off", GOSUMDB="off", GOTOOLCHAIN="local")
 def sh(cmd, **kw):
